@@ -412,7 +412,7 @@ func runJoinScenario(t *testing.T, tr *tracer, idx int, seed uint64) {
 		for i := 0; i < steps; i++ {
 			n := 1
 			if r.Chance(1, 4) {
-				n = 2 + r.Intn(4) // several changes on both sides in flight at once
+				n = inflight(2 + r.Intn(4)) // several changes on both sides in flight at once
 				tr.line(kv.L("burst-begin"))
 			}
 			for j := 0; j < n; j++ {
